@@ -169,5 +169,12 @@ class SpooledTextFile(_io.TextIOBase):
         file = self._file
         self._path = self._get_unused_path()
         newfile = self._file = self._path.open(mode='x+')
-        newfile.write(file.getvalue())
-        newfile.seek(file.tell(), 0)
+        # The position of a StringIO is a number of characters,
+        # but that of a text file on disk is not (multi-byte encodings).
+        # So the position must be translated.
+        contents = file.getvalue()
+        num_chars_before_pos = file.tell()
+        newfile.write(contents[:num_chars_before_pos])
+        pos_in_newfile = newfile.tell()
+        newfile.write(contents[num_chars_before_pos:])
+        newfile.seek(pos_in_newfile, 0)
